@@ -46,6 +46,23 @@ CHECKS = {
                 "bcrypt and yaml.v3 are exercised, not modelled. No axioms.",
         "technique": "Coq proof over executable model + differential correspondence check (vm_compute) against the real handlers",
     },
+    "C07": {
+        "text": "Theorems (Props/C07.v): cleaning a rooted path leaves no '..', '.', empty or '/'-containing component for ANY component list; hence "
+                "ReadPath (the path expression behind every file request and transfer) yields root ++ good components for ALL path-item byte "
+                "strings, any item count, and all names; the repaired folder-upload item path, rename target and account-file paths "
+                "(create/delete/rename and the write after a rename) are inside their directory for all inputs; fork side files and the "
+                ".incomplete file of a well-named entry are entries of the same directory; the Mac Roman decoder cannot create or remove '/' or "
+                "'.' (finite check on the table, compared with x/text each run); the pinned unrooted item path is refuted. Correspondence: "
+                "filepath.Join on hostile strings vs the component model; hotline.ReadPath and FormattedPath as functions on hostile and "
+                "malformed encodings (string equality with the model, oracle: root prefix + no bad component); EFFECTS: 17 call sites "
+                "(new folder, rename file/folder, comment, delete, move source/destination, alias, info, list, download incl. transfer bytes, "
+                "upload incl. transfer, folder-upload item, account create/rename/delete) run on a real sandbox tree with victims above and "
+                "beside the root: recursive snapshot diff outside the allowed tree must be empty and replies/transfers must not contain "
+                "outside content or listings.",
+        "note": "Lexical containment (symlinks leading out are assumed absent; make-alias targets are themselves inside). Trusted: path/filepath and "
+                "charmap models validated each run. No axioms.",
+        "technique": "Coq proof (stack-machine invariant of Clean over all byte strings) + differential correspondence on path functions + sandbox effect oracle",
+    },
     "C13": {
         "text": "Theorems (Props/C13.v): (new_id_is_free) the repaired allocation loop never returns an ID in use while any of the 65,536 IDs is free, for "
                 "any counter value (wrap included) - by an induction over the loop plus a covering lemma for 65,536 successive counter values; "
